@@ -15,6 +15,8 @@ ASSUME = [
     "behaviours are produced by a seeded random document generator (a TLC -simulate step would have to enumerate ~10^9 documents); the "
     "bounded model is checked exhaustively by TLC and every recorded execution is validated against ConsensusTrace",
     "lookup by a non-unique nickname 'does not work' if it yields no relay (None or KeyError)",
+    "between documents relays are looked up by identity ($hex, $hex~nick, $hex=nick) or named in a circuit event's path, whether or "
+    "not the latest document lists them; the view must not change",
 ]
 
 
@@ -27,7 +29,13 @@ def run(pid, tier, seed):
     traces, seen = [], set()
     for i in range(500 if tier == "quick" else 8000):
         nicks = ("n1", "n2", "n3") if i % 3 == 0 else ("n1", "n2") if i % 3 == 1 else ("n1",)
-        s = [dict(a="Document", d=cons.rand_doc(rng, nicks)) for _ in range(rng.randint(1, 5 if tier == "quick" else 8))]
+        s = []
+        for _ in range(rng.randint(1, 5 if tier == "quick" else 8)):
+            s.append(dict(a="Document", d=cons.rand_doc(rng, nicks)))
+            if rng.random() < 0.5:
+                # relays are looked up / named in circuit paths between documents
+                rs = [r for r in cons.RELAYS if rng.random() < 0.6] or ["ra"]
+                s.append(dict(a="Lookup", form=rng.choice(["hex", "tilde", "eq", "circ"]), rs=rs, d=s[-1]["d"]))
         traces.append(cons.replay(s, seed * 100000 + i))
         if len(s) >= 2:
             seen.add(common.digest(s))
